@@ -34,6 +34,7 @@ Gen<Case> makeGraphGen(const Cfg &cfg) {
     std::string extra = cfgGet(cfg, "extra", "");
     int subsets = (int)cfgInt(cfg, "subsets", 0);
     bool conc = cfgInt(cfg, "conc", 0) != 0;
+    int removals = (int)cfgInt(cfg, "removals", 12); // percentage of `r` (removeEdge) entries among the edge ops
     return gen::exec([=]() {
         std::string cl = *gen::resize(kNominalSize, gen::elementOf(classes));
         auto parts = splitList(cl, ':');
@@ -60,11 +61,17 @@ Gen<Case> makeGraphGen(const Cfg &cfg) {
         // edges: raw endpoints reduced modulo n by the executor; small values dominate so that
         // repeats, reciprocal pairs and self-loops all occur
         int nn = std::max(n, 1);
-        auto eg = gen::map(gen::tuple(uni(0, nn), uni(0, nn), uni(0, xmax), wel({{5, 0}, {1, 1}, {1, 2}})), [](const std::tuple<int, int, int, int> &t) {
+        auto eg = gen::map(gen::tuple(uni(0, nn), uni(0, nn), uni(0, xmax), wel({{5, 0}, {1, 1}, {1, 2}}), uni(0, 100)), [removals](const std::tuple<int, int, int, int, int> &t) {
             int i = std::get<0>(t), j = std::get<1>(t);
             if (std::get<3>(t) == 1)
                 j = i; // self-loop
-            return eOp(i, j, std::get<2>(t));
+            Op o = eOp(i, j, std::get<2>(t));
+            if (std::get<4>(t) < removals) {
+                // removal history: removeEdge(i, j) in the orientation given
+                o.kind = "r";
+                o.a.resize(2);
+            }
+            return o;
         });
         double density = *gen::resize(kNominalSize, gen::element(0.15, 0.4, 1.0, 2.5));
         c.ops = *gen::scale(density * nn * nn / 40.0, gen::container<std::vector<Op>>(eg));
@@ -81,7 +88,7 @@ Gen<Case> makeGraphGen(const Cfg &cfg) {
 // cfg: prop, classes, families="layered;grid;...", maxa, maxb
 Gen<Case> makeFamilyGen(const Cfg &cfg) {
     std::vector<std::string> classes = splitList(cfgGet(cfg, "classes", "DS:none"), ';');
-    std::vector<std::string> fams = splitList(cfgGet(cfg, "families", "layered;grid;cdag;ladder;diamonds"), ';');
+    std::vector<std::string> fams = splitList(cfgGet(cfg, "families", "layered;grid;cdag;ladder;diamonds;looppath;tristrip;cliquechain"), ';');
     std::string prop = cfgGet(cfg, "prop", "C19");
     std::string extra = cfgGet(cfg, "extra", "");
     return gen::exec([=]() {
@@ -104,6 +111,9 @@ Gen<Case> makeFamilyGen(const Cfg &cfg) {
         else if (fam == "cdag") { a = *uni(2, 31); b = 0; }
         else if (fam == "ladder") { a = *uni(2, 41); b = 0; }
         else if (fam == "diamonds") { a = *uni(2, 5); b = *uni(2, 31); }
+        else if (fam == "looppath") { a = *uni(2, 151); b = 0; }
+        else if (fam == "tristrip") { a = *uni(3, 151); b = 0; }
+        else if (fam == "cliquechain") { a = *uni(2, 7); b = *uni(1, 31); }
         c.set("fa", S(a));
         c.set("fb", S(b));
         c.set("fw", S(*wel({{3, 0}, {3, 1}, {2, 2}, {2, 3}})));
